@@ -216,7 +216,7 @@ class Interp:
             if name in f:
                 return f[name], ("var", depth, name)
             pd = f.get("__parent__")
-            if pd is None:
+            if pd is None or pd >= depth or pd >= len(st.frames):
                 break
             depth = pd
             f = st.frames[pd]
